@@ -141,9 +141,11 @@ func (s *scanner) Length() (uint, error) {
 		}
 
 		length = uint(lex.End()) + 1
-		if lex.End() == s.dataSize {
-			length--
-		}
+	}
+	if length > uint(s.dataSize) {
+		// Lexemes closed at the end of the rule (an annotation that runs up to the
+		// last byte) end past it, one position further for each of them.
+		length = uint(s.dataSize)
 	}
 	for ; length > 0; length-- {
 		c := s.data.Byte(length - 1)
